@@ -159,7 +159,7 @@ def b64Switch (i c j : Nat) (out : List Nat) : Res (Nat × List Nat) :=
 def b64Loop : List Nat → Nat → Nat → List Nat → Res (Option (Nat × List Nat))
   | [], _, j, out => .ok (some (j, out))
   | b :: rest, i, j, out =>
-    if base64GuardOperand b > base64GuardLimit then .ok none
+    if base64GuardRejects b then .ok none
     else (rdTable base64de (base64Index b)).bind fun c =>
       if c = base64Invalid then
         (if b = base64Pad then .ok (some (j, out)) else .ok none)
